@@ -325,12 +325,13 @@ struct NodeProc {
     std::vector<en::network::TransportMessage> inbox;  // everything the node's external handler saw
     std::uint64_t ticks = 0;
     bool ignore_sigpipe = true;
+    std::function<void(en::Node&)> after_tick;   // optional observer, runs on the node's main fiber right after every tick
 
     void start(const std::string& name, std::uint32_t host, const en::PeerId& pid, const en::Config& c, std::int64_t tick_period_ns, std::int64_t tick_phase_ns = 0, bool listen = true) {
         id = pid; cfg = c;
         actor.tick_period = tick_period_ns;
         actor.next_tick = tick_phase_ns;
-        actor.on_tick = [this] { if (node) { node->tick(); ++ticks; } };
+        actor.on_tick = [this] { if (node) { node->tick(); ++ticks; if (after_tick) after_tick(*node); } };
         actor.start(name, host);
         actor.call([this, listen] {
             // The hosting application ignores SIGPIPE (the relay binary does; `eph` does not — that is
